@@ -222,6 +222,31 @@ def r08_2(prog, out):
                 out.violation(key, prog.loc(*e.leaf()), "`%s` on the backlog breaks FIFO order: first deliveries no longer follow publish order" % e.lib.split("::")[-1])
     if n < 4:
         raise CheckBroken("expected >= 4 backlog insert/remove sites, found %d" % n)
+    # what was taken from the front is not put back at the back (a partial take that re-queues its remainder behind later arrivals)
+    sl = Slicer(prog)
+    seen = set()
+    for bid in R.actor_methods(R.sub_actor):
+        effs = [e for e in prog.effects(bid) if e.touches(R.backlog) and not e.spawned]
+        for e1 in effs:
+            if e1.kind != "remove_front":
+                continue
+            for e2 in effs:
+                if e2.kind != "insert_back" or e1.leaf()[0] != e2.leaf()[0]:
+                    continue
+                lb, b1 = e1.leaf()
+                b2 = e2.leaf()[1]
+                if (lb, b1, b2) in seen:
+                    continue
+                seen.add((lb, b1, b2))
+                li = prog.info(lb)
+                t2 = li.call_at(b2)
+                if not li.cfg.can_reach(b1, b2) or t2 is None or len(t2.args) < 2:
+                    continue
+                s2 = sl.of(lb, t2.args[1])
+                if (lb, b1) in s2.sites:
+                    out.violation("backlog:%s:rotation" % prog.short(lb), li.loc(b2), "part of what was taken from the front of the backlog is put back at the *back*: it "
+                                  "now waits behind messages that were published later, so a pull limit that ends inside a Publish request's batch tears the batch "
+                                  "apart and delivers later messages first", ["taken at %s" % li.loc(b1), "re-queued with %s at %s" % (e2.lib.split("::")[-1], li.loc(b2))])
     # the vector handed from the publish handler to the backlog is not reordered on the way (post handler)
     for tid in R.variant_targets(R.sub_actor, R.post_variant()):
         ro = [e for e in prog.effects(tid) if e.kind == "reorder"]
